@@ -232,8 +232,25 @@ def velocities(rng, hyd, n, cb, probe=None):
     cs_n = None
     if probe is not None:
         cs_n = math.sqrt(probe.eos.ref("H", probe.Tn)["csq"])
+    # window between the template model's Jouguet velocity and the exact one (they differ
+    # when the sound speeds depend on temperature): a branch decided with the wrong one of
+    # the two only shows there
+    tvJ = None
+    try:
+        tvJ = float(hyd.template.vJ)
+    except Exception:
+        tvJ = None
+    vj_window = None
+    if tvJ is not None and np.isfinite(tvJ) and abs(tvJ - vJ) > 1e-5:
+        vj_window = tuple(sorted((tvJ, vJ)))
     for i in range(n):
         r = rng.random()
+        if vj_window is not None and i % 5 == 2:
+            f = float(rng.uniform(0.05, 0.95))
+            v = vj_window[0] + f * (vj_window[1] - vj_window[0])
+            out.append(min(max(v, vmin), 0.99))
+            kinds.append("between-template-vJ-and-vJ")
+            continue
         if cs_n is not None and cb < cs_n and i % 4 == 3 and cb < vJ:
             # between the sound speeds of the two phases: hybrid by c_b, still "subsonic"
             # by c_s, where a guard written with the wrong one of the two goes unnoticed
